@@ -35,7 +35,16 @@ PROP = Prop(
     models=[(PUB, ["AppendUvarint", "appendUvarlong", "Uvarint", "uvarlong", "Varint", "Varlong", "UvarintLen", "uvarlongLen",
                    "VarintLen", "VarlongLen", "AppendVarint", "AppendVarlong", "Reader.Span", "Reader.Bytes", "Reader.CompactBytes",
                    "Reader.ArrayLen", "Reader.CompactArrayLen", "Reader.VarintArrayLen", "Reader.VarintBytes", "Reader.Int16",
-                   "Reader.Int32", "Reader.readUint64", "Reader.Uvarint", "Reader.Varint", "Reader.Varlong"])],
+                   "Reader.Int32", "Reader.readUint64", "Reader.Uvarint", "Reader.Varint", "Reader.Varlong",
+                   # modelled functions the fixed-width / length-prefixed / Reader-law theorems are about
+                   "AppendBool", "AppendInt8", "AppendInt16", "AppendUint16", "AppendInt32", "AppendInt64", "AppendFloat64", "AppendUuid",
+                   "appendUint64", "AppendUint32", "AppendString", "AppendCompactString", "AppendNullableString",
+                   "AppendCompactNullableString", "AppendBytes", "AppendCompactBytes", "AppendNullableBytes", "AppendCompactNullableBytes",
+                   "AppendVarintString", "AppendVarintBytes", "AppendArrayLen", "AppendCompactArrayLen", "AppendNullableArrayLen",
+                   "AppendCompactNullableArrayLen", "Reader.Bool", "Reader.Int8", "Reader.Uint16", "Reader.Uint32", "Reader.Int64",
+                   "Reader.Uuid", "Reader.Float64", "Reader.String", "Reader.CompactString", "Reader.NullableString",
+                   "Reader.CompactNullableString", "Reader.NullableBytes", "Reader.CompactNullableBytes", "Reader.VarintString",
+                   "Reader.Complete", "Reader.Ok"])],
     rule="every op runs on pkg/kbin AND on the compiled private copy. enc: value -> bytes + length function; dec: bytes -> (value, n) for "
          "Uvarint/Varint/Varlong; rd: a Reader method sequence on one input. Pools: every 2^(7k)+{-1,0,1} (and zig-zag images), every "
          "continuation-bit structure of 0..6 / 0..11 bytes x boundary payloads and last-byte overflow values, random 32/64-bit values, "
@@ -47,9 +56,17 @@ PROP = Prop(
                   "hand-written Lean transcription of primitives.go (Model/C17.lean), tied by differential runs on both copies",
                   "bits.Len32/Len64, binary.BigEndian.*, math.Float64bits are modelled (Nat.log2, big-endian folds, identity on the 64 bits)",
                   "Lean compiler/runtime for the driver"],
-    partial="proved: 32-bit decoder exactness, both varint encoders + all length functions, uvarint round trip, table and copy facts. "
-            "Not proved (differential + Spec verdict only): uvarlong decoder exactness (the generated 10-level proof script exceeded the "
-            "time budget), zig-zag bijection and hence Varint/Varlong round trips, fixed-width round trips, Reader laws.",
+    partial="proved (Lean, all inputs): both unrolled decoders exact against the reference LEB128 reader (Uvarint 5 bytes/32 bits, uvarlong 10 bytes/"
+            "64 bits: value + bytes consumed, (0,0) when the input ran out, (0,-5)/(0,-10) on overlong/overflow, no out-of-range index); Varint/Varlong "
+            "exact against the signed reference; the Go zig-zag expressions equal the integer zig-zag maps and are inverse bijections on BitVec 32/64; "
+            "both varint encoders + all four length functions; fixed-width encoders write big-endian two's complement (Spec.be) and every Reader "
+            "fixed-width/varint/length-prefixed method returns exactly what the corresponding Append wrote (lengths < 2^15 / 2^31 / 2^32-1) and leaves "
+            "exactly the following bytes; every one of the 26 Reader methods refines Spec.step on every well-formed reader (no panic, consumes exactly "
+            "one well-formed encoding or invalidates, value = Spec value, source only shrinks), for sequences too (Ok() at the end iff every read was "
+            "well-formed); an invalidated reader stays invalidated and returns the zero values; table and private-copy facts. "
+            "Not proved (differential + Spec verdict only): the length-prefixed *encoders* against the Spec for out-of-range lengths (the prefix "
+            "truncates; only the in-range round trips are theorems), AppendArrayLen-family for negative/huge l, UnsafeString aliasing, and of course "
+            "the hand transcription Model/C17.lean itself (tied to both compiled copies by the differential run).",
     assumptions=["Go `int` is 64 bits (int(uint32)-1 cannot wrap)",
                  "string/slice lengths passed to the length-prefixed encoders are < 2^15 (int16 prefix), < 2^31 (int32/varint prefix), "
                  "< 2^32-1 (compact prefix) for the round-trip theorems; outside, the code truncates the prefix exactly as the model does",
@@ -57,16 +74,24 @@ PROP = Prop(
 )
 
 MANIFEST = {
-    "text": "Lean theorems (kernel-checked, all inputs): Uvarint returns exactly the reference LEB128 result on every byte string (n>0: value and "
-            "bytes consumed; 0: input ran out; -5: more than 5 bytes or value does not fit 32 bits) and never indexes past the input; "
-            "AppendUvarint and appendUvarlong append exactly the LEB128 bytes of every 32/64-bit value to any dst; UvarintLen/VarintLen/"
-            "VarlongLen/uvarlongLen, through the uvarintLens table regenerated from the source, equal the encoded length; "
-            "Uvarint(AppendUvarint(u) ++ rest) = (u, UvarintLen u) for every u; the reference reader inverts the reference writer. "
-            "The private kmsg copy is token-identical (regenerated fact) and is compiled and run through the same ops. "
-            "Tied only by the differential run + Spec verdict on both copies (not proved): the 10-byte decoder, zig-zag, fixed-width "
-            "big-endian ints/float/uuid, length-prefixed encoders, every Reader method (consume exactly one encoding or invalidate).",
+    "text": "Lean theorems (kernel-checked, all inputs): Uvarint and uvarlong return exactly the reference LEB128 result on every byte string (n>0: "
+            "value and bytes consumed; 0: input ran out; -5/-10: more than 5/10 bytes or value does not fit 32/64 bits) and never index past the "
+            "input (uvarlong through a generic lemma about the unrolled loop, to which the transcription is definitionally equal); Varint/Varlong "
+            "return exactly the signed reference result; the Go zig-zag expressions compute the protocol's integer zig-zag maps and are inverse "
+            "bijections on all 32/64-bit values; AppendUvarint/appendUvarlong/AppendVarint/AppendVarlong append exactly the LEB128 bytes and the four "
+            "length functions, through the uvarintLens table regenerated from the source, equal the encoded length; decode(encode v ++ rest) = (v, len) "
+            "for all four; the fixed-width encoders write big-endian two's complement / the 64 float bits and the Reader's Bool/Int8/Int16/Uint16/Int32/"
+            "Uint32/Int64/Float64/Uuid return exactly the value written and leave exactly the rest, short input invalidates; String/NullableString/"
+            "CompactString/CompactNullableString/Bytes/NullableBytes/CompactBytes/CompactNullableBytes/VarintBytes/VarintString/ArrayLen/"
+            "CompactArrayLen return exactly what the corresponding Append wrote for lengths in range; every one of the 26 Reader methods refines the "
+            "Spec's reader contract step (no panic, consumes exactly one well-formed encoding else invalidates, value = Spec value, never past the "
+            "input), also for any sequence of reads, so Ok()/Complete() is true at the end iff every read was well-formed; an invalidated reader stays "
+            "invalidated, consumes nothing and returns the zero values (quirks proved as they are: CompactBytes gives the empty non-nil slice, "
+            "CompactArrayLen gives -1). The private kmsg copy is token-identical (regenerated fact) and is compiled and run through the same ops. "
+            "Tied only by the differential run + Spec verdict on both copies (not proved): length-prefixed encoders with out-of-range lengths "
+            "(prefix truncation), and the correspondence of the hand-written model to the Go source.",
     "note": "Trusted: Lean kernel; the hand transcription of primitives.go (validated differentially against both compiled copies on every run, "
             "not verified); c17gen; Go's bits.Len/encoding/binary/math.Float64bits are modelled. 'Overlong' is read as 'more than 5/10 bytes'; "
             "non-minimal encodings such as 80 00 are accepted by the code and by the Kafka reference reader.",
-    "technique": "Lean 4 proof (BitVec model -> Nat via toNat + omega, kernel only) with regenerated table/identity facts and differential correspondence",
+    "technique": "Lean 4 proof (BitVec model -> Nat/Int via toNat/toInt + omega, induction on the unrolled loop, refinement of an executable reader Spec; kernel only) with regenerated table/identity facts and differential correspondence",
 }
